@@ -1,6 +1,7 @@
 /- Driver handlers for area `b64` (C17): spec.Base64Bytes Encode / Decode / MarshalJSON / UnmarshalJSON. -/
 import VDriver.Util
 import VModel.B64
+import VModel.Json
 namespace V.Driver.B64Ops
 open V V.Driver V.B64
 
@@ -45,7 +46,16 @@ def handle (op : String) (args : Array String) : Option String :=
   | "unmarshal", [h] =>
     match unhex h with
     | none => some "bad-op"
-    | some raw => some (showOpt (unmarshalJSON raw))
+    | some raw =>
+      -- specification (the C01 parser reads the JSON, independently of the model's own string reader): a JSON string — however
+      -- its characters are spelled, `\/` and `\uXXXX` included — that denotes a text over one unpadded alphabet decodes to
+      -- the bytes that text denotes; anything else is outside the clause
+      let sp := match V.Json.parse raw with
+        | some (.str r d) =>
+          if !V.Json.rawStringWellFormed r then "unspecified:ill-formed unicode"
+          else if Spec.specified d then showOpt (Spec.decode d) else "unspecified:not-over-one-unpadded-alphabet"
+        | _ => "unspecified:not a JSON string"
+      some (showOpt (unmarshalJSON raw) ++ "\t" ++ sp)
   | "marshal", [h] =>
     match unhex h with
     | none => some "bad-op"
